@@ -265,6 +265,14 @@ def handle (kc : KdfCache) (line : String) : IO String := do
                            stdin := unhex stdin }
     let args := if argv == "-" then [] else (argv.splitOn ",").filterMap fun a => if a == "" then some [] else strOfHex a
     pure (fmtCli (Cli.main P { a := unhex ra, b := unhex rb } w args))
+  | ["cli_tty", files, env, typed, ra, rb, argv] =>
+    let w : Cli.World := { files := parsePairs files,
+                           env := (parsePairs env).filterMap fun (k, v) => (String.fromUTF8? (ByteArray.mk v.toArray)).map fun s => (k, s.toList),
+                           stdin := [] }
+    let args := if argv == "-" then [] else (argv.splitOn ",").filterMap fun a => if a == "" then some [] else strOfHex a
+    let lines := if typed == "-" then [] else (typed.splitOn ",").filterMap fun a => if a == "" then some [] else strOfHex a
+    let r := Cli.mainTty P { a := unhex ra, b := unhex rb } w lines args
+    pure (fmtCli r.out ++ s!" retries={r.retries}")
   | ["cli_parse", argv] =>
     let args := if argv == "-" then [] else (argv.splitOn ",").filterMap fun a => if a == "" then some [] else strOfHex a
     pure ("ok " ++ (repr (Cli.parseArgv args)).pretty 100000)
